@@ -57,7 +57,14 @@ CHECKS["C19"] = ("other", "decision tables of the six pointer functions extracte
                  "push_key/push_index add exactly one Key/Index node with prev = self and the given key/index; to_owned walks from self, unconditionally pushes one matching component per node, follows prev, stops at Origin and reverses exactly once; is_origin is the Origin discriminant test; last_field = {Origin: None, Key: Some(key), Index: recurse}; first_field = {Origin: None, Index: recurse, Key: recurse.or(Some(key))}.",
                  TB + "; std Vec::push / rev+collect / Option::or semantics; other shapes of these functions are reported as cannot-establish", "§5 C19")
 
-NOT_YET = {p: 'check not yet built in this revision of /verif (construction order in DESIGN.md §8); will be claimed when its rule set is armed' for p in ['C13', 'C14', 'C17', 'C18', 'C20']}
+CHECKS["C17"] = ("other", "dataflow of the `kinds` parameter through copy/sort/dedup, injectivity of the rank table, purity of the helpers, strict-suffix recursion — over MIR",
+                 "Decides clause 1 and the fallback: the kinds list is only copied, the copy is sorted with sort_by_key(order) where `order` maps the eight kinds to eight distinct ranks, deduplicated, tested for emptiness (fallback constant) and handed to description_rec; the helpers read no statics; single_description has eight distinct phrases with Float = 'a number'; every recursive call passes a strict suffix. Hence the phrase is a function of the set of kinds. The composition of the phrase is not decided.",
+                 TB + "; std stable sort / dedup semantics; merging of number/integer phrases and punctuation are run-time string building (not decided)", "§5 C17")
+CHECKS["C18"] = ("other", "symbolic interval walk of the length dispatch + callee identity / argument provenance of the iterator chain and its three closures — over MIR",
+                 "The budget table extracted from the comparison tree on received.len() equals {0-3: none, 4-7: 1, 8-12: 2, 13-17: 3, 18-24: 4, 25+: 5}; candidates are accepted.iter() unfiltered and in order, the metric is strsim::damerau_levenshtein(received, candidate), kept iff distance <= that budget, chosen by min_by(d1.cmp(d2)) (first minimum); None gives the empty string and Some names exactly that candidate.",
+                 TB + "; strsim's metric and std's min_by tie rule are trusted; len is bytes", "§5 C18")
+
+NOT_YET = {p: 'check not yet built in this revision of /verif (construction order in DESIGN.md §8); will be claimed when its rule set is armed' for p in ['C13', 'C14', 'C20']}
 
 
 def main():
